@@ -728,6 +728,50 @@ struct History {
 		c.stats.count("state.dif.selected", sel.size());
 	}
 
+	// DeallocateIf whose filter throws when it is asked its (k+1)-th question (k answers were given). MemPool handles one
+	// block completely before it asks about the next, so the call must leave the pool exactly as a complete call would whose
+	// filter answers `false` from the (k+1)-th question on: that is what the model line `dift` computes.
+	void opDifThrow(int id) {
+		Pool& pool = *pools[id];
+		auto& v = blocks[id];
+		if (v.empty()) return;
+		std::set<long long> sel;
+		for (auto& ub : v) if (rng.chance(3, 4)) sel.insert(ub.rel);
+		size_t k = (size_t)rng.below(v.size());
+		checkAllPatterns("before DeallocateIf(throwing filter)");
+		std::string opLine = "dift " + std::to_string(id) + " " + std::to_string(k);
+		for (long long r : sel) { opLine += ' '; opLine += std::to_string(r); }
+		std::vector<long long> asked;
+		uint64_t freesBefore = ar.frees;
+		bool threw = false;
+		struct FilterThrow {};
+		// every block may be deleted by the call: none of them is the user's while it runs
+		for (auto& ub : v) allLive.erase(ub.rel);
+		guard(true);
+		try {
+			pool.DeallocateIf([&](void* p) { if (asked.size() == k) throw FilterThrow(); long long r = ar.rel(p); asked.push_back(r); return sel.count(r) > 0; });
+		} catch (const FilterThrow&) { threw = true; }
+		guard(false);
+		std::string ev = ar.takeEvents();
+		s.op(opLine);
+		s.res("[" + joinRel(asked) + "] | " + ev + " | " + digest(pool));
+		if (!threw) c.fail("C09 DeallocateIf: %s pool %d: filter was asked only %zu questions about %zu live blocks (op %u)", cfgName.c_str(), id, asked.size(), v.size(), opNo);
+		std::set<long long> askedSet(asked.begin(), asked.end());
+		if (askedSet.size() != asked.size()) c.fail("C09 DeallocateIf: %s pool %d: a block was asked about twice (op %u)", cfgName.c_str(), id, opNo);
+		std::vector<UserBlock> kept;
+		for (auto& ub : v) {
+			bool gone = askedSet.count(ub.rel) && sel.count(ub.rel);
+			if (!gone) { kept.push_back(ub); allLive[ub.rel] = id; }
+		}
+		for (long long r : asked) { bool live = false; for (auto& ub : v) if (ub.rel == r) live = true; if (!live) c.fail("C09 DeallocateIf: %s pool %d: filter asked about arena+%lld which is not a live block (op %u)", cfgName.c_str(), id, r, opNo); }
+		v = kept;
+		checkCounts(id, pool);		// the reported allocated count = number of live blocks, also after the exception
+		checkAllPatterns("after DeallocateIf(throwing filter)");
+		if (ar.frees != freesBefore) { hs.buffersFreed += (unsigned)(ar.frees - freesBefore); noteLastFreed(ev); }
+		c.stats.count("state.op.dif_throw");
+		c.stats.count("state.dif_throw.deleted_before_throw", (uint64_t)(blocks[id].size() < v.size() ? 0 : 0) + (uint64_t)(askedSet.size()));
+	}
+
 	void opDall(int id) {
 		Pool& pool = *pools[id];
 		for (auto& ub : blocks[id]) allLive.erase(ub.rel);
@@ -800,7 +844,7 @@ struct History {
 			unsigned r = (unsigned)rng.below(100);
 			if (opNo % 24 == 23) target = (unsigned)rng.range(0, N > 1 ? (unsigned)std::min<size_t>(4 * N + 8, 260) : 40);
 			if (r < 4) opDump(id);
-			else if (r < 7 && N > 1 && liveCount > 0) opDif(id);
+			else if (r < 7 && N > 1 && liveCount > 0) { if (rng.chance(1, 3)) opDifThrow(id); else opDif(id); }
 			else if (r < 8 && N > 1) opDall(id);
 			else if (r < 11 && pools.size() >= 2) {
 				int id2 = randomPool();
